@@ -70,3 +70,18 @@ m("C06-next-line-no-forward", "C06", "renderable/_renderable.py", 'cursor_to_nex
 m("C06-no-cr", "C06", "renderable/_renderable.py", 'f"\\r{cursor_up(height - 1)}{cursor_forward(pad_left)}"', 'f"{cursor_up(height - 1)}{cursor_forward(pad_left)}"')
 m("C07-animate-ki-propagates", "C07", "renderable/_renderable.py", "        except KeyboardInterrupt:\n            pass\n        finally:\n            render_iter.close()", "        finally:\n            render_iter.close()")
 m("C10-animate-finalize-true", "C10", "renderable/_renderable.py", "            False if loops == 1 else cache,\n            finalize=False,", "            False if loops == 1 else cache,\n            finalize=True,")
+# ---- Renderable.draw
+m("C07-revert-draw-ki-fix", "C07", "renderable/_renderable.py", "        except KeyboardInterrupt:\n            # Animations are documented to end without raising `KeyboardInterrupt`\n            if not animation:\n                raise\n        finally:", "        finally:")
+m("C07-hide-before-try", "C07", "renderable/_renderable.py", "        try:\n            if hide_cursor:\n                output.write(HIDE_CURSOR)\n            if not_echo_input:", "        if hide_cursor:\n            output.write(HIDE_CURSOR)\n        try:\n            if not_echo_input:")
+m("C13-draw-no-restore", "C13", "renderable/_renderable.py", "            if not_echo_input:\n                termios.tcsetattr(output_fd, termios.TCSANOW, old_attr)\n            render_data.finalize()", "            render_data.finalize()")
+m("C10-draw-no-finalize", "C10", "renderable/_renderable.py", "                termios.tcsetattr(output_fd, termios.TCSANOW, old_attr)\n            render_data.finalize()", "                termios.tcsetattr(output_fd, termios.TCSANOW, old_attr)")
+m("C07-still-ki-swallowed", "C07", "renderable/_renderable.py", "                    self._handle_interrupted_draw_(\n                        render_data, real_render_args, output\n                    )\n                    raise", "                    self._handle_interrupted_draw_(\n                        render_data, real_render_args, output\n                    )")
+m("C06-draw-no-newline", "C06", "renderable/_renderable.py", '        finally:\n            output.write("\\n")\n            if hide_cursor:', "        finally:\n            if hide_cursor:")
+m("C06-draw-check-size-ignored", "C06", "renderable/_renderable.py", "            check_size=animation or check_size,", "            check_size=check_size,")
+m("C07-show-cursor-conditional", "C07", "renderable/_renderable.py", "            if hide_cursor:\n                output.write(SHOW_CURSOR)", "            if hide_cursor and not animation:\n                output.write(SHOW_CURSOR)")
+# ---- _init_render_ / finalize
+m("C10-finalize-else", "C10", "renderable/_types.py", "            try:\n                self.render_cls._finalize_render_data_(self)\n            finally:\n                self.finalized = True", "            self.render_cls._finalize_render_data_(self)\n            self.finalized = True")
+m("C10-init-render-finalize-inverted", "C10", "renderable/_renderable.py", "        finally:\n            if finalize:\n                render_data.finalize()", "        finally:\n            if not finalize:\n                render_data.finalize()")
+m("C06-height-ge", "C06", "renderable/_renderable.py", "                if not allow_scroll and height > terminal_height:", "                if not allow_scroll and height >= terminal_height:")
+m("C06-width-unchecked", "C06", "renderable/_renderable.py", "                if width > terminal_width:", "                if width > terminal_width + 1:")
+m("C06-check-after-render", "C06", "renderable/_renderable.py", "            return renderer(render_data, render_args), padding\n        finally:", "            result = renderer(render_data, render_args), padding\n            if check_size and padding and padding.get_padded_size(render_data[Renderable].size)[0] > terminal_size[0]:\n                raise RenderSizeOutofRangeError('late')\n            return result\n        finally:")
